@@ -275,14 +275,24 @@ func RunIndexed(name string, behs []Behaviour, index []int, shard, nshard int, o
 		} else if li%nshard != shard {
 			continue
 		}
-		fl, err := ad.Reset(b.Init())
+		fl, perr, err := safeReset(ad, b.Init())
 		if err != nil {
 			return nil, fmt.Errorf("behaviour %d reset: %v", bi, err)
+		}
+		if perr != "" {
+			if fl == nil {
+				fl = Fields{}
+			}
+			fl["panic"] = perr
+			sum.Panics++
 		}
 		if err := emit("reset", bi, 0, nil, fl); err != nil {
 			return nil, err
 		}
 		sum.Behaviours++
+		if perr != "" {
+			continue // the scenario could not even be set up on the real code: recorded, never consumable
+		}
 		var sample []string
 		for si, s := range b.Steps {
 			fl, perr, err := safeApply(ad, s)
@@ -334,6 +344,23 @@ func safeApply(ad Adapter, s Step) (fl Fields, panicMsg string, err error) {
 	return
 }
 
+func safeReset(ad Adapter, init map[string]tla.Value) (fl Fields, panicMsg string, err error) {
+	defer func() {
+		if r := recover(); r != nil {
+			if he, ok := r.(HarnessError); ok {
+				err = he
+				return
+			}
+			panicMsg = fmt.Sprintf("%v\n%s", r, debug.Stack())
+			if len(panicMsg) > 1500 {
+				panicMsg = panicMsg[:1500]
+			}
+		}
+	}()
+	fl, err = ad.Reset(init)
+	return
+}
+
 // HarnessError distinguishes a bug in the harness (exit 2) from a panic of the code under test.
 type HarnessError struct{ Msg string }
 
@@ -341,6 +368,12 @@ func (h HarnessError) Error() string { return h.Msg }
 
 // Failf aborts the replay with a harness failure.
 func Failf(f string, a ...interface{}) { panic(HarnessError{fmt.Sprintf(f, a...)}) }
+
+// Realf reports that the REAL code refused or failed an honest operation the scenario rests on (an honest miner cannot
+// build on its own chain, an honest validator refuses an honest block, ...).  It is recorded in the trace as a line with
+// a `panic` field, which no trace spec can consume: the verdict is a violation with that line as its replay, not a
+// harness failure.
+func Realf(f string, a ...interface{}) { panic("REAL-CODE FAILURE in an honest scenario: " + fmt.Sprintf(f, a...)) }
 
 // Driver is a recording driver: it runs the real code on its own (seeded,
 // concurrent, …) and writes an ndjson trace for the trace spec.
